@@ -10,4 +10,7 @@ CHECKS = {
     "C01": essa.c01,
     "C11": essa.c11,
     "C10": essa.c10,
+    "C09": essa.c09,
+    "C02": essa.c02,
+    "C20": essa.c20,
 }
